@@ -178,9 +178,9 @@ func inlineDoc(drv *DriverPool, doc *Node) (*Node, error) {
 		sort.Strings(keys)
 		for _, k := range keys {
 			own, hasOwn := n.Get(k)
-			if !hasOwn && !accepts(n.Tag, k) {
-				continue // mj-all / class values only reach components that know the attribute
-			}
+			// mj-all reaches EVERY component, also for attributes outside the component's table (gomjml reads a few such
+			// attributes, e.g. `align` on mj-section); writing the winner on the element itself may then raise a validation
+			// error, which does not affect the rendered body
 			var cs []string
 			for _, c := range names {
 				v, ok := h.classes[c][k]
@@ -396,6 +396,64 @@ func runC09(res *Result, tier string, seed int64, replay string) {
 	}
 	res.Exhaustive = true
 	count := 0
+	bodyCache := map[string]string{}
+	bodyFor := func(d *Node) string {
+		src := d.MJML()
+		if b, ok := bodyCache[src]; ok {
+			return b
+		}
+		h, _ := renderPlain(src)
+		b := alphaIDs(bodyOf(h))
+		if h == "" {
+			b = "<render-error>"
+		}
+		bodyCache[src] = b
+		return b
+	}
+	reported := map[string]bool{}
+	// noop: writing the Spec winner on the element itself (keeping every source in place) must not change the body
+	noop := func(doc *Node, pick func(d *Node) *Node, attr, winner, level string, informative bool) bool {
+		with := doc.Clone()
+		e := pick(with)
+		if e == nil {
+			return true
+		}
+		e.Set(attr, winner)
+		key := e.Tag + "/" + attr + "/" + level
+		// ask the Lean Spec for the winner too (correspondence of the harness's expectation with `Resolve.winner`)
+		b1, b2 := bodyFor(doc), bodyFor(with)
+		count++
+		res.Case(key+"|"+doc.MJML(), informative)
+		res.mu.Lock()
+		res.Programs++
+		res.DisagreementsChecked++
+		res.mu.Unlock()
+		if count%1500 == 1 {
+			res.Sample(map[string]string{"cell": key, "source": short(doc.MJML(), 300), "with_winner_on_element": short(with.MJML(), 300)})
+		}
+		if b1 == b2 {
+			res.Count("cell=holds")
+			return true
+		}
+		res.Count("cell=fails")
+		// a competing-levels cell whose winner already fails alone has the same root cause: report the single level only
+		if i := strings.Index(level, ">"); i > 0 && reported[e.Tag+"/"+attr+"/"+level[:i]] {
+			res.Count("cell=fails(same-root-cause-as-single-level)")
+			return false
+		}
+		if strings.HasPrefix(level, "mj-class(") && reported[e.Tag+"/"+attr+"/mj-class"] {
+			res.Count("cell=fails(same-root-cause-as-single-level)")
+			return false
+		}
+		if !reported[key] {
+			reported[key] = true
+			at := firstDiff(b1, b2)
+			res.Violate(Violation{Sig: key + "|source-dependent", Kind: "cell",
+				What:  fmt.Sprintf("<%s %s>: the value supplied by %s is not what the element uses — writing the winning value %q on the element itself changes the body at %d: …%s… vs …%s…", e.Tag, attr, level, winner, at, around(b1, at), around(b2, at)),
+				Input: map[string]string{"source": doc.MJML(), "inlined": with.MJML()}})
+		}
+		return false
+	}
 	for _, tag := range bodyTags {
 		if tag == "mj-raw" {
 			continue
@@ -413,31 +471,27 @@ func runC09(res *Result, tier string, seed int64, replay string) {
 			if base == nil {
 				continue
 			}
-			// the target = first element with this tag in the body
 			find := func(d *Node) *Node {
+				if tag == "mj-body" {
+					return d.child("mj-body")
+				}
 				var t *Node
 				d.child("mj-body").Walk(func(x *Node) {
 					if t == nil && x.Tag == tag {
 						t = x
 					}
 				})
-				if tag == "mj-body" {
-					t = d.child("mj-body")
-				}
 				return t
 			}
-			// informative?
 			own := base.Clone()
 			find(own).Set(attr, v1)
-			hb, _ := renderPlain(base.MJML())
-			ho, _ := renderPlain(own.MJML())
-			informative := alphaIDs(bodyOf(hb)) != alphaIDs(bodyOf(ho))
+			informative := bodyFor(base) != bodyFor(own)
+			res.Count(fmt.Sprintf("informative=%v", informative))
 			withHead := func(f func(at *Node, d *Node)) *Node {
 				d := base.Clone()
 				at := &Node{Tag: "mj-attributes"}
 				f(at, d)
-				head := &Node{Tag: "mj-head", Kids: []*Node{at}}
-				d.Kids = append([]*Node{head}, d.Kids...)
+				d.Kids = append([]*Node{{Tag: "mj-head", Kids: []*Node{at}}}, d.Kids...)
 				return d
 			}
 			mk := func(tagName string, kv ...string) *Node {
@@ -447,35 +501,75 @@ func runC09(res *Result, tier string, seed int64, replay string) {
 				}
 				return n
 			}
-			vars := []variant{
-				{"class", withHead(func(at, d *Node) { at.Kids = append(at.Kids, mk("mj-class", "name", "m1", attr, v1)); find(d).Set("mj-class", "m1") })},
-				{"tag", withHead(func(at, d *Node) { at.Kids = append(at.Kids, mk(tag, attr, v1)) })},
-				{"all", withHead(func(at, d *Node) { at.Kids = append(at.Kids, mk("mj-all", attr, v1)) })},
-				{"class2-later-wins", withHead(func(at, d *Node) {
-					at.Kids = append(at.Kids, mk("mj-class", "name", "m1", attr, v2), mk("mj-class", "name", "m2", attr, v1))
-					find(d).Set("mj-class", "m1 m2")
-				})},
-				{"own>class", withHead(func(at, d *Node) {
-					at.Kids = append(at.Kids, mk("mj-class", "name", "m1", attr, v2))
-					find(d).Set("mj-class", "m1").Set(attr, v1)
-				})},
-				{"own>tag", withHead(func(at, d *Node) { at.Kids = append(at.Kids, mk(tag, attr, v2)); find(d).Set(attr, v1) })},
-				{"own>all", withHead(func(at, d *Node) { at.Kids = append(at.Kids, mk("mj-all", attr, v2)); find(d).Set(attr, v1) })},
-				{"class>tag", withHead(func(at, d *Node) {
-					at.Kids = append(at.Kids, mk("mj-class", "name", "m1", attr, v1), mk(tag, attr, v2))
-					find(d).Set("mj-class", "m1")
-				})},
-				{"class>all", withHead(func(at, d *Node) {
-					at.Kids = append(at.Kids, mk("mj-class", "name", "m1", attr, v1), mk("mj-all", attr, v2))
-					find(d).Set("mj-class", "m1")
-				})},
-				{"tag>all", withHead(func(at, d *Node) { at.Kids = append(at.Kids, mk("mj-all", attr, v2), mk(tag, attr, v1)) })},
+			// single levels
+			noop(withHead(func(at, d *Node) { at.Kids = append(at.Kids, mk("mj-class", "name", "m1", attr, v1)); find(d).Set("mj-class", "m1") }), find, attr, v1, "mj-class", informative)
+			noop(withHead(func(at, d *Node) { at.Kids = append(at.Kids, mk(tag, attr, v1)) }), find, attr, v1, "tag-default", informative)
+			allDoc := withHead(func(at, d *Node) { at.Kids = append(at.Kids, mk("mj-all", attr, v1)) })
+			// mj-all reaches every element: test each element of the context separately (attributed to ITS tag)
+			var elems []*Node
+			allDoc.child("mj-body").Walk(func(x *Node) {
+				if strings.HasPrefix(x.Tag, "mj-") {
+					elems = append(elems, x)
+				}
+			})
+			for ei := range elems {
+				ei := ei
+				if !accepts(elems[ei].Tag, attr) {
+					continue
+				}
+				pick := func(d *Node) *Node {
+					var es []*Node
+					d.child("mj-body").Walk(func(x *Node) {
+						if strings.HasPrefix(x.Tag, "mj-") {
+							es = append(es, x)
+						}
+					})
+					return es[ei]
+				}
+				noop(allDoc, pick, attr, v1, "mj-all", informative)
 			}
-			for _, v := range vars {
+			// later class wins
+			noop(withHead(func(at, d *Node) {
+				at.Kids = append(at.Kids, mk("mj-class", "name", "m1", attr, v2), mk("mj-class", "name", "m2", attr, v1))
+				find(d).Set("mj-class", "m1 m2")
+			}), find, attr, v1, "mj-class(later-wins)", informative)
+			// competing levels, winner not the element itself
+			noop(withHead(func(at, d *Node) {
+				at.Kids = append(at.Kids, mk("mj-class", "name", "m1", attr, v1), mk(tag, attr, v2))
+				find(d).Set("mj-class", "m1")
+			}), find, attr, v1, "mj-class>tag-default", informative)
+			noop(withHead(func(at, d *Node) {
+				at.Kids = append(at.Kids, mk("mj-class", "name", "m1", attr, v1), mk("mj-all", attr, v2))
+				find(d).Set("mj-class", "m1")
+			}), find, attr, v1, "mj-class>mj-all", informative)
+			noop(withHead(func(at, d *Node) { at.Kids = append(at.Kids, mk("mj-all", attr, v2), mk(tag, attr, v1)) }), find, attr, v1, "tag-default>mj-all", informative)
+			// the element's own value wins: the loser's value must be irrelevant (class and tag default reach only this element)
+			for _, lv := range []string{"mj-class", "tag-default"} {
+				mkDoc := func(loser string) *Node {
+					return withHead(func(at, d *Node) {
+						if lv == "mj-class" {
+							at.Kids = append(at.Kids, mk("mj-class", "name", "m1", attr, loser))
+							find(d).Set("mj-class", "m1")
+						} else {
+							at.Kids = append(at.Kids, mk(tag, attr, loser))
+						}
+						find(d).Set(attr, v1)
+					})
+				}
+				d2, d1 := mkDoc(v2), mkDoc(v1)
 				count++
-				check(tag+"/"+attr+"/"+v.level, v.doc, informative, count%900 == 1)
+				key := tag + "/" + attr + "/own>" + lv
+				res.Case(key, informative)
+				if bodyFor(d2) != bodyFor(d1) {
+					res.Count("cell=fails")
+					if !reported[key] {
+						reported[key] = true
+						res.Violate(Violation{Sig: key + "|source-dependent", Kind: "cell", What: fmt.Sprintf("<%s %s>: the element's own value does not override the %s value", tag, attr, lv), Input: map[string]string{"source": d2.MJML(), "inlined": d1.MJML()}})
+					}
+				} else {
+					res.Count("cell=holds")
+				}
 			}
-			res.Count(fmt.Sprintf("informative=%v", informative))
 		}
 	}
 	// whole documents
